@@ -284,7 +284,10 @@ class Facts:
         self.impls = raw['impls']
         self.unsafe = raw['unsafe']
         self.type_tree = raw['type_tree']
-        self.bodies = [Body(b, self.krate) for b in raw['bodies']]
+        allb = [Body(b, self.krate) for b in raw['bodies']]
+        # const item initialisers are evaluated at compile time: kept apart from the run-time bodies
+        self.bodies = [b for b in allb if not (b.dk or '').startswith(('Const', 'AssocConst'))]
+        self.consts = {b.path: b for b in allb if (b.dk or '').startswith(('Const', 'AssocConst'))}
         self.by_path = {}
         self.by_hash = {}
         for b in self.bodies:
